@@ -6,7 +6,7 @@ HARNESS_TEST = "TestC10"
 COQ_MODEL = ["C10/Check.v"]
 COQ_PROOF_DEPS = ["C10/Proofs.v"]
 COQ_OBLIG = ["C10/Property.v"]
-CASES_HEADER = "Require Import Nib.C10.Model Nib.C10.Spec Nib.C10.Check.\nLocal Open Scope Z_scope."
+CASES_HEADER = "Require Import Nib.C10.Model Nib.C10.Spec Nib.C10.Check."
 CASE_TYPE = "case"
 MISMATCH_FN = "mismatch"
 VIOLATES_FN = "violates"
@@ -29,7 +29,7 @@ HARNESS_TIMEOUT = {"quick": 600, "thorough": 7200}
 
 
 def _z(s):
-    return "(%s)" % int(s)
+    return "(%s)%%Z" % int(s)
 
 
 def _b(x):
